@@ -207,6 +207,14 @@ def harness_build(bin="vh_merkle", timeout=3000):
     t0 = time.time()
     r = subprocess.run(["cargo", "build", "--release", "--offline", "--bin", bin], cwd=HARNESS, env=e,
                        capture_output=True, text=True, timeout=timeout)
+    if r.returncode != 0 and ("undefined hidden symbol" in r.stderr or "undefined symbol" in r.stderr or "ld returned" in r.stderr):
+        # stale / corrupted artefacts of the harness itself (e.g. copied mid-build): drop them and retry once
+        for pat in ("deps/%s-*" % bin, "deps/vh-*", ".fingerprint/vh-*", "incremental"):
+            import glob
+            for f in glob.glob(os.path.join(HARNESS, "target", "release", pat)):
+                shutil.rmtree(f, ignore_errors=True) if os.path.isdir(f) else os.remove(f)
+        r = subprocess.run(["cargo", "build", "--release", "--offline", "--bin", bin], cwd=HARNESS, env=e,
+                           capture_output=True, text=True, timeout=timeout)
     if r.returncode != 0:
         # a tree that does not build is a tool error, not a violation
         raise ToolError("harness build failed:\n" + r.stderr[-6000:])
